@@ -69,6 +69,13 @@ FORMS = {
     'two relative from-imports': ("from . import m\nfrom . import n\nfrom .. import a\nfrom .. import p2", ['m', 'n', 'a', 'p2']),
     'from-import three times same module': ("from olpkg.a import val\nfrom olpkg.a import other\nfrom olpkg.a import val as v3", ['val', 'other', 'v3']),
     'import and from-import interleaved': ("import olpkg.sub\nfrom olpkg.sub import m\nimport olpkg.sub.n as nn\nfrom olpkg.sub import n", ['olpkg', 'm', 'nn', 'n']),
+    'alias equals top-level package': ("import olpkg.sub as olpkg", ['olpkg']),
+    'alias equals top-level package deep': ("import olpkg.a, olpkg.sub.m as olpkg", ['olpkg']),
+    'alias equals a middle component': ("import olpkg.sub.m as sub\nimport olpkg.p2.x as p2", ['sub', 'p2']),
+    'alias equals the leaf': ("import olpkg.a as a, olpkg.sub.n as n", ['a', 'n']),
+    'from-import alias equals the package': ("from olpkg import a as olpkg", ['olpkg']),
+    'from-import alias equals another imported name': ("from olpkg.a import val as other, other as val", ['other', 'val']),
+    'from-import submodules in non-alphabetical order': ("from olpkg.sub import n, m\nfrom olpkg import p2, amb, a", ['n', 'm', 'p2', 'amb', 'a']),
     'stdlib dotted and alias': ("import os.path as op, os\nfrom os.path import join as j, sep\nimport xml.dom.minidom", ['op', 'os', 'j', 'sep', 'xml']),
     'stdlib mix': ("import os.path, olpkg.a as oa\nfrom os import path as osp, sep", ['os', 'oa', 'osp', 'sep']),
 }
